@@ -173,6 +173,20 @@ func reused(in []byte) []byte {
 	return reuseBuf[:len(in):len(in)]
 }
 
+// a second buffer of the same kind, for calls that take two inputs
+var reuseBuf2 = make([]byte, 0, 1<<16)
+
+func reused2(in []byte) []byte {
+	if concMode {
+		return append(make([]byte, 0, len(in)), in...)
+	}
+	if len(in) > cap(reuseBuf2) {
+		reuseBuf2 = make([]byte, 0, 2*len(in))
+	}
+	reuseBuf2 = append(reuseBuf2[:0], in...)
+	return reuseBuf2[:len(in):len(in)]
+}
+
 // Runes that Unicode case mapping or "digit" classification relates to ASCII characters: a parser
 // that upper-cases, lower-cases or classifies with unicode-aware helpers may let them in.
 var confusables = []string{"\u0131", "\u0130", "\u017f", "\u212a", "\u2160", "\u2170", "\uff29", "\uff49", "\uff11", "\u0661", "\u00b9", "\u2164", "\u216f", "\u217f", "\u00e9"}
@@ -280,7 +294,11 @@ func (s *Sink) Intent(req Ev) {
 	if s.f != nil {
 		s.w.Flush()
 	}
-	b, _ := json.Marshal(req)
+	evs := []Ev{}
+	for _, op := range s.setOrder {
+		evs = append(evs, s.sets[op])
+	}
+	b, _ := json.Marshal(map[string]any{"events": append(evs, req)})
 	if err := os.WriteFile(filepath.Join(s.dir, s.name+".intent.json"), b, 0o644); err != nil {
 		fatal("%v", err)
 	}
